@@ -285,6 +285,7 @@ def observe(obs, index, base_dump, user=A):
         own = [l for l in lines if l.startswith(tag.encode() + b" ")]
         foreign = [l for l in lines if not l.startswith(b"*") and not l.startswith(b"+") and not l.startswith(tag.encode() + b" ")]
         ok = any(l.split()[1:2] == [b"OK"] for l in own)
+        bad = any(l.split()[1:2] == [b"BAD"] for l in own)
         data = any(DATA_RE.match(l) for l in lines)
         users, roles, assign = world_ids(dump)
         changed = []
@@ -316,7 +317,7 @@ def observe(obs, index, base_dump, user=A):
         word = w
         if w == "UID" and a:
             word = "UID " + a.split()[0].upper()
-        out.append({"word": word, "arg": a, "tag": tag, "ok": ok, "own": len(own), "foreign": len(foreign), "data": data,
+        out.append({"word": word, "arg": a, "tag": tag, "ok": ok, "bad": bad, "own": len(own), "foreign": len(foreign), "data": data,
                     "changed": changed, "revealed": revealed, "backend": len(bodies), "user": uid, "target": target,
                     "roles": assign.get(uid, []), "recv": recv.decode("latin-1")[:1500], "how": how})
         prev = dump
@@ -329,8 +330,8 @@ def observe(obs, index, base_dump, user=A):
 
 
 def coq_line_obs(o):
-    return 'mk_lo "%s" %s %d %d %s [%s] [%s] %d %d %s [%s]' % (
-        o["word"].replace('"', ""), C.coq_bool(o["ok"]), o["own"], o["foreign"], C.coq_bool(o["data"]),
+    return 'mk_lo "%s" %s %s %d %d %s [%s] [%s] %d %d %s [%s]' % (
+        o["word"].replace('"', ""), C.coq_bool(o["ok"]), C.coq_bool(o.get("bad", False)), o["own"], o["foreign"], C.coq_bool(o["data"]),
         "; ".join(o["changed"]), "; ".join(o["revealed"]), o["backend"], o["user"], o["target"],
         "; ".join(str(r) for r in o["roles"]))
 
